@@ -46,8 +46,21 @@ for q in X + [["a", "b", "c", "d", "e", "f", "g", "h", "i", "j", "k"], ["z"]]:
     return out
 
 
+def h_search_step(rp):
+    """a clause about one step of the search (production step, initial filter, dedup) failed on the fragment: does the
+    real search as a whole deviate from the naive reference closure (sound / complete / traces / termination)?"""
+    from replay import bounded_derive
+    r = bounded_derive.run("quick", 1)
+    out = {"func": rp["func"], "clause": rp["clause"], "reference_search": {k: v for k, v in r.items() if k != "bad"}, "confirmed": bool(r["bad"])}
+    if r["bad"]:
+        out["failing_input"] = r["bad"][:3]
+    return out
+
+
 def replay(rp):
     func = rp["func"]
+    if func.startswith(("ctparse._ctparse.production-step", "ctparse._ctparse.initial-filter")) and rp.get("clause") != "deadline-check-before-any-work":
+        return h_search_step(rp)
     if rp.get("clause") == "writes-no-module-level-state":
         return h_frame_history(rp)
     if rp.get("clause") == "iterates-no-set-in-hash-order":
